@@ -44,7 +44,7 @@ theorem M_hasDerivAt {p : SedovFuncs.P} {γ k ω v : ℝ} (hC : StdConsts p γ k
   have hv := S.hv
   have hγ := S.hγ
   -- F and F' through λ and λ'
-  have hF : SedovFuncs.L1.f_fun p v = p.a_val * v * SedovFuncs.L1.l_fun p v := by simp only [epv_leaf]
+  have hF : SedovFuncs.L1.f_fun p v = p.a_val * v * SedovFuncs.L1.l_fun p v := by simp only [epv_semi_leaf]
   have hFd : SedovFuncs.L1.f_fun_dv p v = p.a_val * SedovFuncs.L1.l_fun p v + p.a_val * v * SedovFuncs.L1.l_fun_dv p v := by
     rw [Std.f_dv p v B, Std.l_dv p v B]; field_simp
   have hav : p.a_val = 1 / 4 * (k + 2 - ω) * (γ + 1) := hC.a_val
@@ -166,7 +166,7 @@ theorem e2_pos {p : SedovFuncs.P} {γ k ω : ℝ} (hC : StdConsts p γ k ω) (P 
 /-- λ is continuous on the closed branch (also at v0, where the base x2 vanishes) -/
 theorem l_continuousOn {p : SedovFuncs.P} {γ k ω : ℝ} (hC : StdConsts p γ k ω) (s : Set ℝ)
     (hs : ∀ v ∈ s, ClosedBases p v) (ha2 : 0 < -p.a2) : ContinuousOn (SedovFuncs.L1.l_fun p) s := by
-  unfold SedovFuncs.L1.l_fun
+  rw [(funext (EPV.Bridge.Semi.SedovFuncs_L1_l_fun p) : SedovFuncs.L1.l_fun p = _)]
   refine (ContinuousOn.mul (ContinuousOn.rpow_const (by fun_prop) ?_) (ContinuousOn.rpow_const (by fun_prop) ?_)).mul
     (ContinuousOn.rpow_const (by fun_prop) ?_)
   · intro v hv; exact Or.inl (hs v hv).x1.ne'
@@ -189,7 +189,7 @@ theorem rpow_combine0 {x : ℝ} (hx : 0 ≤ x) (a b : ℝ) (n : ℕ) (hb : b ≠
 theorem M_eq_Mc {p : SedovFuncs.P} {v : ℝ} (B : ClosedBases p v) (X : ℝ) (kn : ℕ) (h1 : 1 ≤ kn) (ha2 : 0 < -p.a2)
     (he2 : 0 < p.a3 + p.a2 * p.omega + (-p.a2) * kn) : M p X kn v = Mc p X kn v := by
   unfold M Mc
-  simp only [epv_leaf]
+  simp only [epv_semi_leaf]
   rw [mul_pow, mul_pow]
   have E1 := Std.rpow_combine B.x1 (p.a0 * p.omega) (-p.a0) _ kn rfl
   have E2 := rpow_combine0 B.x2 (p.a3 + p.a2 * p.omega) (-p.a2) kn ha2.ne' h1 he2.ne'
@@ -214,7 +214,7 @@ theorem l_at_v0 {p : SedovFuncs.P} {γ k ω : ℝ} (hC : StdConsts p γ k ω) (P
     rw [hC.c_val]; unfold K.c_val v0
     have := P.X_pos.ne'; have := P.γ_pos.ne'
     field_simp; ring
-  simp only [epv_leaf, hx, mul_zero, Real.zero_rpow ha2.ne', zero_mul]
+  simp only [epv_semi_leaf, hx, mul_zero, Real.zero_rpow ha2.ne', zero_mul]
 
 /-- at v = v2 all four bases are 1: λ = g = 1 (the shock) -/
 theorem at_v2 {p : SedovFuncs.P} {γ k ω : ℝ} (hC : StdConsts p γ k ω) (P : Params γ k ω)
@@ -232,7 +232,7 @@ theorem at_v2 {p : SedovFuncs.P} {γ k ω : ℝ} (hC : StdConsts p γ k ω) (P :
     rw [hC.d_val, hC.e_val]; unfold K.d_val K.e_val v2; field_simp; ring
   have h4 : p.b_val * (1 - 1 / 2 * p.xg2 * v2 γ k ω) = 1 := by
     rw [hC.b_val, hC.xg2]; unfold K.b_val v2; field_simp; ring
-  simp only [epv_leaf, h1, h2, h3, h4, Real.one_rpow, mul_one, and_self]
+  simp only [epv_semi_leaf, h1, h2, h3, h4, Real.one_rpow, mul_one, and_self]
 
 /-- **The mass integral of the traced density similarity function, standard solution type.**
 For γ > 1, k ∈ ℕ, k ≥ 1, ω < k, special_singularity none (denom2, denom3 ≠ 0), standard type
